@@ -319,8 +319,16 @@ type c03Obs struct {
 	cerr    string
 }
 
+// c03Spoilers: texts that are refused, each cut off in another state of the lexer.  One of them is compiled
+// before every second observation: what a compilation makes of a text does not depend on what was compiled
+// before it, least of all on a text that was refused.
+var c03Spoilers = []string{"1 2-3", "a b*c", "1 )(", "a a/b", "1 2<3", "x y|z", "1 2.5e", "a 'b'", "( 1", "1 +", "a[1", "f(1,", "1 2", "a..b", "a::b", "$x", "a b-c", "1 2!=3"}
+
 func c03Observe(src string) c03Obs {
 	var o c03Obs
+	if h := core.Hash(src); h%2 == 0 {
+		core.Guard(func() { expr.NewExprMachine(c03Spoilers[int(h/2%uint64(len(c03Spoilers)))], nil) })
+	}
 	m, err := expr.NewExprMachine(src, nil)
 	if err != nil {
 		o.cerr = err.Error()
